@@ -1,0 +1,42 @@
+//go:build verif
+
+package generator
+
+import (
+	"sort"
+	"sync"
+)
+
+// Template-coverage recorder for the verification harness (build tag `verif`).
+
+var (
+	verifMu        sync.Mutex
+	verifTemplates = map[string]int{}
+)
+
+func verifRecordTemplate(name string) {
+	verifMu.Lock()
+	verifTemplates[name]++
+	verifMu.Unlock()
+}
+
+// VerifTemplatesUsed returns how often each template was executed since start.
+func VerifTemplatesUsed() map[string]int {
+	verifMu.Lock()
+	defer verifMu.Unlock()
+	out := make(map[string]int, len(verifTemplates))
+	for k, v := range verifTemplates {
+		out[k] = v
+	}
+	return out
+}
+
+// VerifTemplatesDefined lists the names of all defined templates.
+func VerifTemplatesDefined() []string {
+	var out []string
+	for _, t := range templates.Templates() {
+		out = append(out, t.Name())
+	}
+	sort.Strings(out)
+	return out
+}
